@@ -39,7 +39,7 @@ pub const BUILTINS: &[&str] = &[
 pub const ARGS: &[&str] = &[
     "-1", "0", "1", "3", "2147483647", "-2147483648", "1/2", "-7/2", "-2147483648/3", "2147483647/2", "1/2147483647", "(/ 0. 0.)", "(/ 1. 0.)", "(- (/ 1. 0.))",
     // long values (messages quote their operands): multi-byte characters at every byte offset parity
-    "\"aéééééééééééééééééééééééééééééééééééééééééééééééé\"", "\"éééééééééééééééééééééééééééééééééééééééééééééééééé\"", "'(1 2 3 4 5 6 7 8 9 10 11 12 13 14 15 16 17 18 19 20 21 22 23 24 25 26 27 28 29 30 λλλλλλλλλλ)", "'|ééééééééééééééééééééééééééééééééééééééééééééééééééééééééééééééééé|", "1.5", "-0.0", "1e38", "\"\"", "\"s\"", "#\\a", "'a", "'()", "'(1 2)", "'(1 . 2)", "'((1) (2))", "(vector)", "(vector 1 2)", "'#(1)",
+    "\"aéééééééééééééééééééééééééééééééééééééééééééééééé\"", "\"éééééééééééééééééééééééééééééééééééééééééééééééééé\"", "'(1 2 3 4 5 6 7 8 9 10 11 12 13 14 15 16 17 18 19 20 21 22 23 24 25 26 27 28 29 30 λλλλλλλλλλ)", "'|ééééééééééééééééééééééééééééééééééééééééééééééééééééééééééééééééé|", "1.5", "-0.0", "1e38", "\"\"", "\"s\"", "#\\a", "'a", "'||", "'()", "'(1 2)", "'(1 . 2)", "'((1) (2))", "(vector)", "(vector 1 2)", "'#(1)",
     "car", "(lambda (p) p)", "(lambda (p q) (list p q))", "#t", "#f",
 ];
 
@@ -98,6 +98,24 @@ pub fn escape_texts() -> Vec<String> {
         out.push(format!("\"\\{}\"", e));
         out.push(format!("\"\\{}", e));
         out.push(format!("'|\\{}|", e));
+    }
+    // the empty symbol and other values whose printed form is empty or needs bars, where messages quote them
+    for v in ["'||", "(car '||)", "(vector-ref '|| 0)", "('|| 1)", "(car '(|| a))", "(car (car '(|| a)))", "(+ 1 '||)", "(car \"\")", "(car '|a b|)", "(car '|1|)", "(apply car '(||))", "(|| 1)", "(define || 1)", "(car (vector '||))"] {
+        out.push(v.to_string());
+    }
+    // message-length ladder: errors whose message quotes a value of every length up to 300, made
+    // of multi-byte characters at both byte parities (a message cut at a byte offset shows here)
+    for k in 1..=300usize {
+        let e = "é".repeat(k);
+        let l = "λ".repeat(k);
+        out.push(format!("(car \"{}\")", e));
+        out.push(format!("(car \"a{}\")", e));
+        out.push(format!("((lambda (x) x) \"a\" \"{}\" 2)", e));
+        out.push(format!("((lambda (x) x) \"{}\" 2)", l));
+        out.push(format!("(vector-ref (vector) '|{}|)", l));
+        out.push(format!("({}{} 1)", if k % 2 == 0 { "a" } else { "" }, e));
+        out.push(format!("(vector-ref '({}) 0)", (1..=k).map(|i| i.to_string()).collect::<Vec<_>>().join(" ")));
+        out.push(format!("((lambda (a b) a) {})", (1..=k + 2).map(|i| i.to_string()).collect::<Vec<_>>().join(" ")));
     }
     for c in ["#\\space", "#\\newline", "#\\tab", "#\\nul", "#\\null", "#\\alarm", "#\\delete", "#\\escape", "#\\return", "#\\backspace", "#\\", "#\\λ", "#\\xyz", "#\\(", "#\\#", "#\\\\"] {
         out.push(c.to_string());
